@@ -18,11 +18,11 @@ func c06(c *q.Ctx) {
 	const miner = "kernel/engines/xuperos/miner::"
 	// K3: direct (non-batch) writes
 	c.WhoCalls("kvdb::Database.Put|kvdb::Database.Delete", map[string]string{
-		led + "newLedger":                         "writes the empty meta of a ledger being created (no other row exists yet)",
-		led + "(*Ledger).UpdateBlockChainData":    "regulator overlay: rewrites one confirmed row in place (single row, idempotent)",
-		led + "(*Ledger).SavePendingBlock":        "pending-block stash, consulted only as a download cache",
-		"lib/storage/kvdb::(*table).Put":          "table adapter forwarding to its parent database",
-		"lib/storage/kvdb::(*table).Delete":       "table adapter forwarding to its parent database",
+		led + "newLedger":                        "writes the empty meta of a ledger being created (no other row exists yet)",
+		led + "(*Ledger).UpdateBlockChainData":   "regulator overlay: rewrites one confirmed row in place (single row, idempotent)",
+		led + "(*Ledger).SavePendingBlock":       "pending-block stash, consulted only as a download cache",
+		"lib/storage/kvdb::(*table).Put":         "table adapter forwarding to its parent database",
+		"lib/storage/kvdb::(*table).Delete":      "table adapter forwarding to its parent database",
 		"bcs/ledger/xledger/state/meta::NewMeta": "writes default meta rows only when they are missing at first open; re-done on the next open if lost",
 	}, "every other persistent effect must travel in the operation's batch")
 
